@@ -108,6 +108,11 @@ def check(rep, tier, seed):
                      expected=",".join(tokf(w) if (w != w or abs(w) == math.inf or w == int(w)) else repr(w) for w in want)[:300],
                      detail="folding a spectrum with NaN / infinite entries: kept cells follow IEEE arithmetic, only cells above the diagonal take the fill value")
 
+    # the same cases against the extended-value model (Model/Ext.v: IEEE addition on rationals + inf, -inf, NaN; theorems
+    # C05_ext_*): entries are small integers, so f64 is exact and the model's value is the required one
+    compare_cases(rep, "fold-nonfinite-vs-model", ["fold %s %s %s" % (fmt(sh), ",".join(tokf(v) for v in vals), f) for sh, vals, f in nf],
+                  classify=lambda c, m, i: "fold:nonfinite")
+
     def nontrivial(c, m):
         toks = m.split()[1].split(",") if len(m.split()) > 1 else []
         return len(set(toks)) > 1
